@@ -25,6 +25,19 @@ POOL_LIT = ['0', '1', '-1', '2147483648', '0x7fffffffffffffff', '184467440737095
             '4294967296', '99999999999999999999999', '\\', '@', '`', '$', '\x7f']
 
 SNIPPETS = r'''
+int table[4] = {[1 ... 4] = 7};
+int table[4] = {[1 ... 3] = 7, [0 ... 0] = 1, [3 ... 4] = 2};
+int table[4] = {[4 ... 4] = 7};
+int table[4] = {[3 ... 1] = 7};
+int table[] = {[1 ... 4] = 7, [2 ... 9] = 1};
+int f(void) { int t[4] = {[1 ... 4] = 7}; return t[0]; }
+struct { int a[3]; int b; } sd = {.a[1 ... 3] = 5};
+struct { int a[3]; int b; } sd = {.a = {[0 ... 2] = 1}, .b = 2};
+char cs[3] = {[0 ... 2] = 'x', [3] = 0};
+long double ldf(long a, long b, long c, long d, long e, long f, long g, long double x) { return x + g; } long double ldc(void) { return ldf(1, 2, 3, 4, 5, 6, 7, 8.5L); }
+long double ldf(long a, long b, long c, long d, long e, long f, long g, long h, long double x, long double y) { return x + y; } long double ldc(void) { return ldf(1, 2, 3, 4, 5, 6, 7, 8, 9.5L, 1.5L); }
+struct LD { long double v; int t; }; int ldf(int a, int b, int c, int d, int e, int f, int g, struct LD s) { return s.t; } int ldc(void) { struct LD s = {1.5L, 2}; return ldf(1, 2, 3, 4, 5, 6, 7, s); }
+double va(int n, ...); double vc(void) { return va(3, 1, 2.5, 3.5L, 4, 5, 6, 7, 8, 9.5L); }
 #define C(a,b) a##b
 C(/,/)
 #define C(a,b) a##b
@@ -684,6 +697,37 @@ def run(ctx):
                           script='ASAN_OPTIONS=detect_leaks=0:strict_memcmp=0 ${CHIBICC_SAN:-$CHIBICC} -cc1 -cc1-input input.c -cc1-output /tmp/replay_c13.s input.c '
                                  + ' '.join("'%s'" % x.replace("'", "'\\''") for x in extra if not x.startswith('-I')) +
                                  '; rc=$?; echo "exit status $rc"; if [ $rc -eq 0 ]; then as -o /dev/null /tmp/replay_c13.s || exit 1; exit 0; fi; [ $rc -eq 1 ] && exit 0; exit 1')
+    # the same answer must reach the user through the driver: when cc1 ends abnormally (signal, abort) or with a diagnostic, `chibicc -c`
+    # exits non-zero and leaves no object file.  Inputs: one that kills cc1 (the open stack-exhaustion finding, and deep nesting under a
+    # small stack limit) and a few that are diagnosed.
+    dwork = os.path.join(work, 'driver')
+    os.makedirs(dwork, exist_ok=True)
+    dcases = [('cc1-killed-by-signal', 'int f(void) { int a[] = { [100000] = 1 }; return a[0]; }\n', None),
+              ('cc1-killed-by-signal-small-stack', 'int x = ' + '(' * 30000 + '1' + ')' * 30000 + ';\n', 256),
+              ('cc1-diagnostic', 'int f(void) { return 1 +; }\n', None), ('cc1-diagnostic-codegen', 'void f(void) { 1 = 2; }\n', None),
+              ('cc1-ok', 'int f(void) { return 1; }\n', None)]
+    for (how, text, stack_kb) in dcases:
+        src = os.path.join(dwork, how + '.c')
+        obj = os.path.join(dwork, how + '.o')
+        open(src, 'w').write(text)
+        pre = 'ulimit -s %d; ' % stack_kb if stack_kb else ''
+        rc1, o1, e1 = core.sh(['bash', '-c', pre + 'exec "$0" -cc1 -cc1-input "$1" -cc1-output "$2" "$1"', plain, src, os.path.join(dwork, how + '.s')], timeout=120)
+        rc2, o2, e2 = core.sh(['bash', '-c', pre + 'exec "$0" -c -o "$2" "$1"', plain, src, obj], timeout=120)
+        ctx.evaluations += 1
+        ctx.count('driver_runs')
+        ctx.saw('driver:' + how)
+        left = os.path.exists(obj)
+        if rc1 == 0:
+            if rc2 != 0 or not left:
+                ctx.violation('C13|driver|%s|failed-although-cc1-succeeds' % how, 'driver exit %s, object %s' % (rc2, 'present' if left else 'missing'), files={'input.c': text[:2000]})
+        else:
+            ctx.count('driver_runs_with_failing_cc1')
+            if rc2 == 0 or left:
+                ctx.violation('C13|driver|%s|cc1-failure-not-propagated' % how, 'cc1 alone ends with %s, but `chibicc -c` exits %s and %s an object file' % (rc1, rc2, 'leaves' if left else 'leaves no'),
+                              files={'input.c': text[:2000]}, script='$CHIBICC -c -o out.o input.c; rc=$?; [ $rc -ne 0 ] && [ ! -e out.o ] && exit 0; exit 1')
+        for f in (obj, os.path.join(dwork, how + '.s')):
+            if os.path.exists(f):
+                os.unlink(f)
     for s in sites:
         ctx.saw('diag:' + s)
     ctx.extra['distinct_diagnostic_templates'] = len(sites)
